@@ -131,9 +131,14 @@ def point_block(block):
             stubs.Interp1dStub.mode = 'linear'
             lab = dict(pressure_mode='absolute', pressure_unit='bar', loading_basis='molar', loading_unit='mmol',
                        material_basis='mass', material_unit='g', temperature_unit='K')
-            iso = I.make_iso(eng, lab, n=n, frame=True, branch=[0] * n)
+            extra_row = 1 if history == 'origin_point_measured' else 0
+            iso = I.make_iso(eng, lab, n=n + extra_row, frame=True, branch=[0] * (n + extra_row))
             iso.l_interpolator = iso.p_interpolator = None
-            ps, ls = iso.data_raw.cols['pressure'], iso.data_raw.cols['loading']
+            if extra_row:
+                # the data start with a measured point at zero pressure and zero loading: it adds nothing to the integral
+                iso.data_raw.cols['pressure'] = [sx.SymReal(0)] + list(iso.data_raw.cols['pressure'])[1:]
+                iso.data_raw.cols['loading'] = [sx.SymReal(0)] + list(iso.data_raw.cols['loading'])[1:]
+            ps, ls = list(iso.data_raw.cols['pressure'])[extra_row:], list(iso.data_raw.cols['loading'])[extra_row:]
             for i in range(n):
                 eng.assume(ps[i] > (ps[i - 1] if i else 0))
                 eng.assume(ls[i] > (ls[i - 1] if i else 0))
@@ -142,6 +147,8 @@ def point_block(block):
                 iso.data_raw.cols['pressure'] = list(ps)[::-1]
                 iso.data_raw.cols['loading'] = list(ls)[::-1]
                 iso.data_raw.cols['branch'] = [1] * n
+            elif history == 'origin_point_measured':
+                pass
             elif history:
                 # the isotherm was used before (its interpolator exists) and then converted in place by the real method:
                 # the integral is that of the data as stored *now*
@@ -233,7 +240,7 @@ def point_cfgs(tier):
                 out.append((n, w, fill, {}))
         if n == 3:
             for w in ('below', 'between:0', 'between:1', 'at_last'):
-                for h in ('used+convert_loading(unit_to=mol)', 'used+convert_pressure(unit_to=kPa)', 'desorption_branch_stored_high_to_low'):
+                for h in ('used+convert_loading(unit_to=mol)', 'used+convert_pressure(unit_to=kPa)', 'desorption_branch_stored_high_to_low', 'origin_point_measured'):
                     out.append((n, w, None, {}, h))
         for w in ('below', 'between:0', 'at_last'):
             out.append((n, w, None, {'pressure_unit': 'Pa'}))
